@@ -861,7 +861,7 @@ impl<'a> Gen<'a> {
                 }
             }
             if self.profile.generic_recv && depth == 0 && self.rng.chance(1, 3) {
-                r.generics = (*self.rng.pick(&["<T>", "<'a, T, const N: usize>", "<T: Clone, U>", "<W>", "<T, V>"])).to_string();
+                r.generics = (*self.rng.pick(&GENERIC_POOL)).to_string();
                 make_generic_friendly(&mut r);
             }
         }
@@ -978,7 +978,7 @@ impl<'a> Gen<'a> {
             r.from_ident = false;
         }
         if self.profile.generic_recv && self.rng.chance(1, 3) {
-            r.generics = (*self.rng.pick(&["<T>", "<'a, T, const N: usize>", "<T: Clone, U>", "<W>", "<T, V>"])).to_string();
+            r.generics = (*self.rng.pick(&GENERIC_POOL)).to_string();
             make_generic_friendly(&mut r);
         }
         self.recvs[id] = r;
@@ -1192,6 +1192,8 @@ fn make_generic_friendly(r: &mut Recv) {
     r.from_ident = false;
 }
 
+pub const GENERIC_POOL: [&str; 7] = ["<T>", "<'a, T, const N: usize>", "<T: Clone, U>", "<W>", "<T, V>", "<T, const e: usize>", "<T, const expr: usize>"];
+
 /// (generic arguments, extra fields `(attribute, name, type)`) of a generic receiver
 pub fn generic_parts(r: &Recv) -> (String, Vec<(&'static str, &'static str, &'static str)>) {
     match r.generics.as_str() {
@@ -1202,6 +1204,10 @@ pub fn generic_parts(r: &Recv) -> (String, Vec<(&'static str, &'static str, &'st
         // the generated presence check asks the field type for its value-for-absent
         "<W>" => ("<W>".into(), vec![("#[darling(with = |m: &::darling::export::syn::Meta| <Option<W> as ::darling::FromMeta>::from_meta(m))] ", "gen_w", "Option<W>")]),
         "<T, V>" => ("<T, V>".into(), vec![("", "gen_t", "Option<T>"), ("#[darling(with = gen_none_with)] ", "gen_v", "Option<V>")]),
+        // const parameters named like the bindings generated code is tempted to use: a pattern spelled
+        // like a constant in scope is a constant pattern
+        "<T, const e: usize>" => ("<T, e>".into(), vec![("", "gen_t", "Option<T>"), ("#[darling(skip)] ", "gen_marker", "::core::marker::PhantomData<[u8; e]>")]),
+        "<T, const expr: usize>" => ("<T, expr>".into(), vec![("", "gen_t", "Option<T>"), ("#[darling(skip)] ", "gen_marker", "::core::marker::PhantomData<[u8; expr]>")]),
         _ => (String::new(), vec![]),
     }
 }
